@@ -622,6 +622,11 @@ CompletedByEnds ==
         /\ (CpClients(scn, e) # {} /\ \A c \in CpClients(scn, e) : scn.workerOf[c + 1] \in drv.doneW) => e \in hist.cct
         /\ (AcpClients(scn, e) # {} /\ drv.doneW # {}) => e \in hist.cct
 
+(* a race in which nothing fails executes its schedule: race control is never told about a failure or a cancellation *)
+NoSpuriousFailure ==
+    flt.kind = "none" => /\ \A i \in 1..Len(rcbox) : rcbox[i].k \notin {"BenchmarkFailure", "BenchmarkCancelled"}
+                         /\ ~rcst.error /\ ~rcst.cancelled
+
 (* completion never cuts short (or skips) tasks of elements that do not declare completed-by *)
 NoCrossElementCut ==
     /\ \A cj \in hist.cut \cup hist.skip : DeclaresCompletedBy(scn, ElemOf(cj[2]))
